@@ -32,6 +32,9 @@ type Case struct {
 	Via        string          `json:"via"`
 	AutoStep   int64           `json:"auto_increment_increment,omitempty"` // the server's key step (0 = 1); it differs between cases of one process
 	BufReuse   bool            `json:"buffer_reuse"` // the engine hands out []byte cells that are only valid until the next row
+	// Prelude: the statement runs inside an explicit local transaction after this statement, which the database
+	// rejects (duplicate key) and whose error the caller ignores: the rejected statement records nothing
+	Prelude *gen.Stmt `json:"prelude,omitempty"`
 }
 
 // ---- our own reader of rollback_info (JSON serializer, no compression) ---------------------------
@@ -244,10 +247,22 @@ func execute(c Case) *pt.Failure {
 	}
 	env.Srv.ResetJournal()
 	var res atenv.BranchResult
+	preludeErr := ""
 	xid, _ := atenv.Global("c18", func(cx context.Context) error {
+		if c.Prelude != nil {
+			res = atenv.RunBranchOpt(cx, env.AT, atenv.BranchOpts{Mode: "tx", Via: c.Via, KeepGoing: true}, []atenv.StmtText{{SQL: c.Prelude.Text(names), Args: c.Prelude.GoArgs()}, {SQL: c.Stmt.Text(names), Args: c.Stmt.GoArgs()}})
+			if len(res.Stmts) == 2 {
+				preludeErr = res.Stmts[0].Err
+				res.Stmts = res.Stmts[1:]
+			}
+			return nil
+		}
 		res = atenv.RunBranch(cx, env.AT, "auto", c.Via, false, []atenv.StmtText{{SQL: c.Stmt.Text(names), Args: c.Stmt.GoArgs()}})
 		return nil
 	})
+	if c.Prelude != nil && preludeErr == "" {
+		return nil // the prelude was not rejected (the statement under test is not reached as intended): not judged
+	}
 	// engine ground truth
 	var writes []memsql.Write
 	for _, e := range env.Srv.Journal() {
@@ -265,7 +280,7 @@ func execute(c Case) *pt.Failure {
 		feature += "/multi-row"
 	}
 	info := func() string {
-		return fmt.Sprintf("statement: %s %v (only-care-update-columns=%v, via %s, buffer reuse %v)\ncaller saw: %+v\n%s", c.Stmt.Text(names), c.Stmt.GoArgs(), c.OnlyUpdate, c.Via, c.BufReuse, res, atenv.Tail(env.Srv.Journal(), 10))
+		return fmt.Sprintf("statement: %s %v (only-care-update-columns=%v, via %s, buffer reuse %v, after a rejected statement in the same transaction: %v)\ncaller saw: %+v\n%s", c.Stmt.Text(names), c.Stmt.GoArgs(), c.OnlyUpdate, c.Via, c.BufReuse, c.Prelude != nil, res, atenv.Tail(env.Srv.Journal(), 10))
 	}
 	if res.Failed() {
 		last.rejected, last.err = true, res.FirstErr()
@@ -422,6 +437,7 @@ func record(test string, c Case) {
 	for _, cl := range c.Stmt.Classes {
 		labels = append(labels, "class:"+cl)
 	}
+	labels = append(labels, fmt.Sprintf("after-rejected-statement:%v", c.Prelude != nil))
 	switch {
 	case last.rejected:
 		labels = append(labels, "rejected-or-failed")
@@ -442,7 +458,7 @@ func record(test string, c Case) {
 	if card > 2 {
 		card = 2
 	}
-	ctx.Rec.Case(test, nt, fmt.Sprintf("%s|%s|%v|%s|%d|%v|%s", c.Stmt.Kind, c.Stmt.Where, c.Stmt.Classes, strings.Join(types, ","), card, c.OnlyUpdate, c.Tables[c.Stmt.Table].KeyShape), c, labels...)
+	ctx.Rec.Case(test, nt, fmt.Sprintf("%s|%s|%v|%s|%d|%v|%s|%v", c.Stmt.Kind, c.Stmt.Where, c.Stmt.Classes, strings.Join(types, ","), card, c.OnlyUpdate, c.Tables[c.Stmt.Table].KeyShape, c.Prelude != nil), c, labels...)
 }
 
 func TestMain(m *testing.M) {
@@ -464,6 +480,9 @@ func TestPropImages(t *testing.T) {
 		tables := []gen.TableSpec{gen.DrawTable(rt, 0)}
 		c := Case{Tables: tables, Stmt: gen.DrawStmt(rt, tables, stmtOptions()), OnlyUpdate: rapid.Bool().Draw(rt, "onlyUpdate"),
 			Via: rapid.SampledFrom([]string{"db", "conn"}).Draw(rt, "via"), BufReuse: rapid.Bool().Draw(rt, "bufReuse"), AutoStep: rapid.SampledFrom([]int64{0, 0, 1, 2, 5}).Draw(rt, "autoStep")}
+		if rapid.IntRange(0, 4).Draw(rt, "prelude") == 0 {
+			c.Prelude = gen.DupInsert(rt, tables)
+		}
 		fl := runCase(c)
 		record("images", c)
 		ctx.Judge(rt, "images", fl, c)
